@@ -80,6 +80,8 @@ pub struct Picture {
     pub file_ack: u64,
     /// the server returns fewer bytes than the limit for some offsets (see World.tla: ChunkLen)
     pub vary: bool,
+    /// a scripted error (other than "unknown command") comes after `size` / `type` lines of partial output
+    pub ackp: bool,
 }
 
 #[derive(Clone, Debug)]
@@ -301,7 +303,17 @@ impl Sh {
                 let pic = if alt { self.cfg.pic2.clone() } else { self.cfg.pic.clone() };
                 let (src, ack) = if embedded { (pic.embedded, pic.embedded_ack) } else { (pic.file, pic.file_ack) };
                 if ack != 0 {
-                    return Err(vec![Line::ack(ack, idx, if ack == 5 { b"" } else { name }, b"scripted error")]);
+                    let mut ls = vec![];
+                    if pic.ackp && ack != 5 {
+                        ls.push(Line::f(b"size", src.as_ref().map(|d| d.len()).unwrap_or(0).to_string().as_bytes()));
+                        if embedded {
+                            if let Some(m) = &pic.mime {
+                                ls.push(Line::f(b"type", m));
+                            }
+                        }
+                    }
+                    ls.push(Line::ack(ack, idx, if ack == 5 { b"" } else { name }, b"scripted error"));
+                    return Err(ls);
                 }
                 match src {
                     None => Ok(vec![]), // no picture from this source: an empty reply
